@@ -3,7 +3,7 @@
    are one model (they differ only in [has_reloader]) and the correspondence engine runs the same
    histories through all of them. *)
 From Coq Require Import List String NArith ZArith Bool.
-From AM Require Import Ref.Load Ref.Sys Proofs.SysGrows Proofs.SysStatic Proofs.SysMap.
+From AM Require Import Rust.Ast Gen.Private Ref.Load Ref.Sys Proofs.SysGrows Proofs.SysStatic Proofs.SysMap Tie.Graph.
 Import ListNotations.
 
 (* loads (however Compounds nest, whether they succeed, fail or panic) only ever ADD entries *)
@@ -58,6 +58,10 @@ Proof. exact take_exact. Qed.
 
 Theorem C02_clear_empties : forall fuel s, cache (fst (fst (step fuel s OClear))) = [].
 Proof. exact clear_empties. Qed.
+
+(* the code's keys: equality compares type AND id of both sides; hashing feeds type id then id *)
+Theorem C02_code_keys_compare_type_and_id : key_eq_wf dynKey_eq = true /\ key_hash_wf dynKey_hash = true.
+Proof. exact cache_keys_compare_type_and_id. Qed.
 
 (* two types under one id are two keys *)
 Example C02_types_are_separate_keys :
